@@ -563,31 +563,78 @@ func c15CABit(c *eng.Ctx) {
 }
 
 // c15templateCA: stores of IsCA=true into the x509 template lie behind guard; every other store is false.
+// When f itself no longer holds the stores (the block was extracted), the static callees of f in
+// the same package that store the template's IsCA are judged instead, each against the read of
+// CreationParameters.IsCA inside it (selected by field identity, the helper's names are unknown).
 func c15templateCA(c *eng.Ctx, f *ssa.Function, g eng.Guard) {
 	c.Clause("R2", "C15.2")
-	var trues []ssa.Instruction
-	n := 0
-	for _, st := range eng.Stores(f, `\.IsCA$`) {
-		fa, ok := st.Addr.(*ssa.FieldAddr)
-		if !ok || structTypeName(fa.X.Type()) != "crypto/x509.Certificate" {
-			continue
+	caStores := func(fn *ssa.Function) (all, trues []ssa.Instruction) {
+		for _, st := range eng.Stores(fn, `\.IsCA$`) {
+			fa, ok := st.Addr.(*ssa.FieldAddr)
+			if !ok || structTypeName(fa.X.Type()) != "crypto/x509.Certificate" {
+				continue
+			}
+			all = append(all, st)
+			if eng.Expr(st.Val) != "false" {
+				trues = append(trues, st)
+			}
 		}
-		n++
-		if eng.Expr(st.Val) != "false" {
-			trues = append(trues, st)
+		return
+	}
+	type site struct {
+		fn    *ssa.Function
+		g     eng.Guard
+		trues []ssa.Instruction
+	}
+	var sites []site
+	all, trues := caStores(f)
+	n := len(all)
+	sites = append(sites, site{f, g, trues})
+	if n < 2 {
+		isCA := c.P.Field("certutil.CreationParameters.IsCA")
+		seen := map[*ssa.Function]bool{f: true}
+		for _, cl := range eng.Calls(f, `.`) {
+			callee := cl.Common().StaticCallee()
+			if callee == nil || seen[callee] || callee.Pkg == nil || callee.Pkg != f.Pkg || len(callee.Blocks) == 0 {
+				continue
+			}
+			seen[callee] = true
+			a2, t2 := caStores(callee)
+			if len(a2) == 0 {
+				continue
+			}
+			n += len(a2)
+			var edges []eng.Edge
+			for _, b := range callee.Blocks {
+				ifi := eng.IfOf(b)
+				if ifi == nil {
+					continue
+				}
+				nc := eng.Normalize(ifi.Cond)
+				if ld, ok := nc.Val.(*ssa.UnOp); ok && isCA != nil {
+					if fa, ok := ld.X.(*ssa.FieldAddr); ok && eng.FieldVar(fa) == isCA {
+						edges = append(edges, eng.BoolEdges(ld, true)...)
+					}
+				}
+			}
+			sites = append(sites, site{callee, eng.Guard{Desc: "read of CreationParameters.IsCA is true", Edges: edges}, t2})
 		}
 	}
 	if !c.Floor(f, "stores of the template's IsCA", n, 2) {
 		return
 	}
-	if len(trues) == 0 {
-		c.OK(f, "template IsCA", f.Pos(), "the template's IsCA is never set")
-		return
-	}
-	for _, t := range trues {
-		if s := eng.Expr(t.(*ssa.Store).Val); s != "true" {
-			c.Violation(f, "template IsCA", t.Pos(), "the template's IsCA is computed ("+s+") instead of being the constant true behind the CA condition", nil)
+	for _, s := range sites {
+		if len(s.trues) == 0 {
+			if s.fn == f && len(sites) == 1 {
+				c.OK(f, "template IsCA", f.Pos(), "the template's IsCA is never set")
+			}
+			continue
 		}
+		for _, t := range s.trues {
+			if v := eng.Expr(t.(*ssa.Store).Val); v != "true" {
+				c.Violation(s.fn, "template IsCA", t.Pos(), "the template's IsCA is computed ("+v+") instead of being the constant true behind the CA condition", nil)
+			}
+		}
+		c.Cut(s.fn, "template.IsCA = true", s.trues, s.g, nil)
 	}
-	c.Cut(f, "template.IsCA = true", trues, g, nil)
 }
